@@ -7,6 +7,7 @@ import (
 	"crypto/ed25519"
 	"crypto/elliptic"
 	"fmt"
+	"github.com/fxamacker/cbor/v2"
 	"math"
 	"math/big"
 	"strings"
@@ -140,6 +141,13 @@ func decorate(t *tape.Tape, k *cose.Key) string {
 		k.Params[int64(-70001)] = "extra"
 		k.Params["x-note"] = int64(7)
 		d += "+extra"
+		if t.Bool(1, 2, "c14.extra.tagged") {
+			// an application parameter whose value carries a CBOR tag (a URI,
+			// a UUID): legal, and written by the encoder like any other value
+			k.Params[int64(-70002)] = cbor.Tag{Number: 32, Content: "https://example.test/keys/1"}
+			k.Params[int64(-70003)] = cbor.Tag{Number: 37, Content: []byte{1, 2, 3, 4, 5, 6, 7, 8, 9, 10, 11, 12, 13, 14, 15, 16}}
+			d += "+tagged"
+		}
 	}
 	return d
 }
@@ -241,6 +249,16 @@ func c14GoEC(r *Run, t *tape.Tape, priv *ecdsa.PrivateKey, ent *Entropy) {
 			if t.Bool(1, 2, "c14.literal.trim") {
 				out.Params[cose.KeyLabelEC2X] = priv.X.Bytes()
 				out.Params[cose.KeyLabelEC2Y] = priv.Y.Bytes()
+			}
+			if t.Bool(1, 3, "c14.literal.labels") {
+				// ... and the labels of the coordinates written as untyped
+				// constants or computed numbers (Go int, int32, ...): the
+				// encoder takes labels of any integer type
+				for _, l := range []int64{cose.KeyLabelEC2X, cose.KeyLabelEC2Y} {
+					v := out.Params[l]
+					delete(out.Params, l)
+					out.Params[[]any{int(l), int32(l), int16(l), int8(l)}[t.Choose(4, "c14.literal.label.type")]] = v
+				}
 			}
 			return out
 		}
@@ -520,6 +538,27 @@ func scenarioC15(r *Run) {
 		// an application parameter holding a CBOR bignum
 		ks.Extra = append(ks.Extra, KV{refcbor.Int(int64(-3000 - t.Choose(100, "c15.bignum.l"))), genBignum(t)})
 	}
+	if t.Bool(1, 16, "c15.sizesteer") {
+		// a bulky application parameter (a certificate chain, say) that brings
+		// the serialised key to a round size: where a size limit would sit
+		target := []int{4096, 8192, 16384, 65536}[t.Choose(4, "c15.sizesteer.n")] + t.Choose(3, "c15.sizesteer.d") - 1
+		fill := KV{refcbor.Int(-70100), refcbor.Bstr(make([]byte, 300))}
+		ks.Extra = append(ks.Extra, fill)
+		for i := 0; i < 4; i++ {
+			n := len(ks.Bytes())
+			if n == target {
+				break
+			}
+			l := len(ks.Extra[len(ks.Extra)-1].V.Data) + target - n
+			if l < 256 {
+				break
+			}
+			ks.Extra[len(ks.Extra)-1].V = refcbor.Bstr(make([]byte, l))
+		}
+		if len(ks.Bytes()) == target {
+			r.Probe("key-size-steered-to-a-round-number")
+		}
+	}
 	stored := ks.Bytes()
 	if t.Bool(1, 3, "c15.noncanonical") {
 		// a peer need not write deterministically
@@ -539,6 +578,10 @@ func scenarioC15(r *Run) {
 	r.Outcome(fmt.Sprintf("kty=%d/%s", ks.Kty, opsClass(ks)))
 	var k cose.Key
 	var err error
+	var keptSigner cose.Signer
+	var keptVerifier cose.Verifier
+	var keptBytes []byte
+	_ = keptVerifier
 	if t.Bool(1, 3, "c15.slot") {
 		// the directory re-uses its Key variable: it held another (valid,
 		// private, unrestricted) key before
@@ -553,8 +596,41 @@ func scenarioC15(r *Run) {
 				// ... and that key was used
 				r.Lib(func() { k.Signer(); k.Verifier(); k.PublicKey(); k.PrivateKey() })
 			}
+			if t.Bool(1, 2, "c15.slot.keptsigner") {
+				// ... and the signer / verifier taken from it then are still in
+				// use after the variable has been loaded with the next key:
+				// they stay those of the key they were taken from
+				r.Lib(func() { keptSigner, _ = k.Signer() })
+				r.Lib(func() { keptVerifier, _ = k.Verifier() })
+				keptBytes = pb
+			}
 		}
 	}
+	defer func() {
+		if keptBytes == nil || r.Viol != nil {
+			return
+		}
+		pv, e := refcose.ViewKey(keptBytes)
+		if e != nil {
+			return
+		}
+		ppub := viewPublicFromD(pv)
+		if ppub == nil {
+			ppub = viewPublic(pv)
+		}
+		content := []byte("c15 kept signer")
+		if keptSigner != nil && ppub != nil {
+			var sig []byte
+			var se error
+			r.Lib(func() { sig, se = keptSigner.Sign(NewEntropy(77), content) })
+			r.Check()
+			if se != nil || int64(keptSigner.Algorithm()) != pv.FixedAlg() || !refcose.ValidSignature(pv.FixedAlg(), ppub, content, sig) {
+				r.Fail("kept-signer-follows-the-key-variable", "a signer taken from a Key variable, used after another key was loaded into that variable: Sign returned %v, algorithm %d (key it was taken from: %d), signature valid under that key: %v\nfirst key:  %s\nsecond key: %s",
+					se, int64(keptSigner.Algorithm()), pv.FixedAlg(), se == nil && refcose.ValidSignature(pv.FixedAlg(), ppub, content, sig), hexShort(keptBytes), hexShort(stored))
+			}
+			r.Probe("kept-signer-still-of-its-key")
+		}
+	}()
 	r.Lib(func() { err = k.UnmarshalCBOR(stored) })
 	if err != nil {
 		r.Outcome("refused")
